@@ -1,0 +1,12 @@
+//go:build verif
+
+package base
+
+// Contracts for property C01 (helpers of the channel cache). Comment-only; read by /verif/engine.
+
+//@ props C01
+
+// Frame only: the flag is the single thing written.
+//@ func AtomicBool.Set
+//@   requires ab != nil
+//@   modifies ab.value
